@@ -26,10 +26,9 @@
     - invalid BIP32 children (probability 2^-127) are not modelled;
     - Manager.Unlock: the Go code walks the scoped managers in map order and,
       per manager, first decrypts the cached account keys and then works off
-      deriveOnUnlock; the model does the two phases for all scopes at once.
-      The only way phase one fails (a cached imported-xpub account, whose
-      encrypted private key is empty) leaves the manager locked until restart,
-      so how far phase two got for other scopes is not observable.
+      deriveOnUnlock; the model does the two phases for all scopes at once
+      (neither phase can fail for one scope and succeed for another: the
+      first never fails, the second only by the nil dereference [EPanic]).
     - the used flag written by MarkUsed is not modelled (its cache eviction is);
     - [extend_priv] is the regenerated fact Generated.AddrFacts
       .extend_derives_private_when_unlocked: whether extendAddresses uses the
@@ -271,7 +270,8 @@ Definition set_internal (v : bool) (ma : maddr) : maddr :=
 Definition set_keys (e c : option privkey) (ma : maddr) : maddr :=
   mkMA (ma_scope ma) (ma_path ma) (ma_fmt ma) (ma_pub ma) (ma_imported ma) (ma_internal ma) e c.
 
-(** keyToManaged: a public-only address is queued for the next unlock. *)
+(** keyToManaged: a public-only address of an account that has a private key
+    is queued for the next unlock. *)
 Definition key_to_managed (st : state) (s : scope) (sch : schema) (key : xkey) (path : dpath)
            (ai : acct_info) : res nat :=
   let internal := dp_branch path =? internal_branch in
@@ -279,7 +279,8 @@ Definition key_to_managed (st : state) (s : scope) (sch : schema) (key : xkey) (
   | None => Err st EOther
   | Some ma =>
     let '(st1, oid) := alloc st (MKey (set_internal internal ma)) in
-    Ok (if x_is_private key then st1 else enqueue st1 s oid (dp_branch path) (dp_index path)) oid
+    Ok (if x_is_private key || negb (is_some (ai_enc ai)) then st1
+        else enqueue st1 s oid (dp_branch path) (dp_index path)) oid
   end.
 
 Definition last_index (next : N) : N := if 0 <? next then next - 1 else 0.
@@ -336,6 +337,13 @@ Definition row_to_managed (st : state) (s : scope) (sch : schema) (row : addr_ro
   | RScript sc =>
     let '(st1, oid) := alloc st (MScript (mkSA s sc (Some sc) None)) in
     Ok st1 oid
+  end.
+
+(** loadAddress: from the database, without touching the address cache *)
+Definition load_address (st : state) (s : scope) (sch : schema) (k : akey) : res nat :=
+  match aget sk_dec (d_addrs (st_disk st)) (s, k) with
+  | None => Err st EAddrNotFound
+  | Some row => row_to_managed st s sch row
   end.
 
 (** loadAndCacheAddress *)
@@ -395,7 +403,8 @@ Definition put_chained (st : state) (s : scope) (k : akey) (a branch idx : N) : 
 
 Definition obj_key_of (st : state) (oid : nat) : option akey := option_map obj_akey (heap_get st oid).
 
-(** the write loop of nextAddresses: store, then read back and cache *)
+(** the write loop of nextAddresses: store, then read back (the cache is filled
+    by onCommit) *)
 Fixpoint write_readback (st : state) (s : scope) (sch : schema) (a branch : N) (objs : list (nat * N)) : res unit :=
   match objs with
   | [] => Ok st tt
@@ -403,7 +412,7 @@ Fixpoint write_readback (st : state) (s : scope) (sch : schema) (a branch : N) (
     match obj_key_of st oid with
     | None => Err st EOther
     | Some k =>
-      bind (load_and_cache (put_chained st s k a branch idx) s sch k) (fun st _ =>
+      bind (load_address (put_chained st s k a branch idx) s sch k) (fun st _ =>
         write_readback st s sch a branch rest)
     end
   end.
@@ -500,16 +509,21 @@ Definition clear_ct (o : mobj) : mobj :=
 
 Definition clear_priv (ai : acct_info) : acct_info :=
   mkAI (ai_kind ai) (ai_pub ai) (ai_enc ai) None (ai_schema ai) (ai_fp ai) (ai_next_ext ai) (ai_next_int ai).
+(** Unlock: acctKeyPriv := decrypt acctKeyEncrypted; accounts without an encrypted
+    private key (watch-only) are skipped, their acctKeyPriv stays nil *)
 Definition fill_priv (ai : acct_info) : acct_info :=
   mkAI (ai_kind ai) (ai_pub ai) (ai_enc ai) (ai_enc ai) (ai_schema ai) (ai_fp ai) (ai_next_ext ai) (ai_next_int ai).
 
-(** Manager.lock(): account private keys, clear texts of CACHED addresses *)
+(** Manager.lock(): account private keys, clear texts of CACHED addresses, the
+    cache of derived private keys.  (It also wipes the clear text of the two
+    last-address objects of every cached account; clear texts are not
+    observable here and those objects are not tracked per account.) *)
 Definition lock_all (st : state) : state :=
   let m := st_mem st in
   let heap := fold_left (fun h kv => match nth_error h (snd kv) with
                                      | Some o => list_set h (snd kv) (clear_ct o)
                                      | None => h end) (m_addrs m) (m_heap m) in
-  upd_mem (fun m => set_m_locked true (set_m_accts (amap clear_priv (m_accts m)) (set_m_heap heap m))) st.
+  upd_mem (fun m => set_m_locked true (set_m_pk [] (set_m_accts (amap clear_priv (m_accts m)) (set_m_heap heap m)))) st.
 
 (** the deriveOnUnlock loop *)
 Fixpoint derive_queue (st : state) (q : list (scope * nat * N * N)) : res unit :=
@@ -541,7 +555,6 @@ Definition unlock (st : state) (pass : N) : state * option errc :=
   if negb (m_locked m) then
     if pass =? m_pass m then (st, None) else (lock_all st, Some EWrongPass)
   else if negb (pass =? m_pass m) then (lock_all st, Some EWrongPass)
-  else if existsb (fun kv => negb (is_some (ai_enc (snd kv)))) (m_accts m) then (lock_all st, Some ECrypto)
   else
     let st1 := upd_mem (fun m => set_m_accts (amap fill_priv (m_accts m)) m) st in
     match derive_queue st1 (m_queue m) with
@@ -784,8 +797,9 @@ Definition step (extend_priv : bool) (st : state) (o : op) : state * out :=
 
   | ODeriveCache s p =>
     with_scope st s (fun _ =>
+      if locked st then (st, OutErr ELocked) else
       match aget sp_dec (m_pk (st_mem st)) (s, p) with
-      | Some k => (st, OutKey k)                       (* no lock test before the cache *)
+      | Some k => (st, OutKey k)
       | None =>
         match aget sa_dec (m_accts (st_mem st)) (s, dp_iacct p) with
         | None => (st, OutErr ENotCached)
